@@ -45,14 +45,14 @@ def configs(tier):
              dict(n=3, ps=1, k=1, script=['stop'], at=1),
              dict(n=3, ps=1, k=1, script=['shutdown'], at=1)):
     rpc.append((pf, dict(mode='delay', **kw)))
+  quick = [('direct handlers, plain protocol, preemption bound 2', 2, plain),
+           ('direct handlers, re-init/stop/shutdown scripts, preemption bound 1', 1, scripted),
+           ('CourierClient over fake transport, delay bound 1', 1, rpc)]
   if tier == 'quick':
-    return [('direct handlers, plain protocol, preemption bound 2', 2, plain),
-            ('direct handlers, re-init/stop/shutdown scripts, preemption bound 1', 1, scripted),
-            ('CourierClient over fake transport, delay bound 1', 1, rpc)]
-  return [('direct handlers, plain protocol, preemption bound 3', 3, plain),
-          ('direct handlers, re-init/stop/shutdown scripts, preemption bound 2', 2, scripted),
-          ('CourierClient over fake transport, delay bound 1 (delay bound 2 '
-           'needs > 10^5 executions of ~600 steps per configuration)', 1, rpc)]
+    return quick
+  return quick + [
+      ('direct handlers, re-init/stop/shutdown scripts, preemption bound 2', 2, scripted),
+      ('direct handlers, plain protocol, preemption bound 3', 3, plain)]
 
 
 def run(ctx):
